@@ -138,6 +138,11 @@ def run(repo, rep):
                       'FlatChoice.%s re-normalises its alternative on every access (flag %s not tested/set)' % (prop, flag), nontrivial=True)
     # layout: contextual result normalised once per evaluation
     rep.floor('C12.a', n, 22)
+    # normalisation work is linear in the nesting depth (document model), and printing a cyclic value terminates (wrapper model:
+    # the interpreted pipeline reaches the recursion marker on every cyclic scenario)
+    from . import docmodel, wrapper_model
+    rep.floor('C12.a:normalisation-cost', docmodel.cost(repo, rep, 'C12.a'), 3)
+    rep.floor('C12.e', wrapper_model.run(repo, rep, 'C12'), 5)
 
     # ---------------------------------------------------------------- C12.b loops
     n = 0
